@@ -295,6 +295,10 @@ def _posterior(c, obs_builder):
         truth_pre = kepler.propagate(truth, -dt)
         when = EPOCH - timedelta(seconds=dt)
         f.update([_obs(k, sensors[i], truth_pre, jd - dt / 86400.0, sid=i + 1, when=when) for i, k in enumerate(pre)])
+        # (between steps the filter travels through the Ray object store and comes back as a copy with read-only arrays)
+        from vf import raydouble
+
+        f = raydouble._loads(raydouble._dumps(f))
         f.predict(ScenarioTime(2 * dt))
     observations = obs_builder(sensors, truth, jd)
     f.update(observations)
